@@ -994,3 +994,116 @@ func runC16OnceEvery(c *Ctx) {
 		}
 	}
 }
+
+// ---- C16.LINES: the snippet is the referenced line ----
+
+// lineCounterWhy: in getLine the text handed back with ok=true is the scanner's current token, under `counter == e.Line`,
+// where counter is 1 for the first token and grows by one with every Scan: "" or what is wrong.
+func lineCounterWhy(fn *ssa.Function) string {
+	found := false
+	for _, b := range fn.Blocks {
+		ret, ok := b.Instrs[len(b.Instrs)-1].(*ssa.Return)
+		if !ok || len(ret.Results) != 2 {
+			continue
+		}
+		if k, ok := ret.Results[1].(*ssa.Const); !ok || k.Value == nil || k.Value.Kind() != constant.Bool || !constant.BoolVal(k.Value) {
+			continue
+		}
+		found = true
+		// the counter compared with Error.Line on the way to this return
+		var cnt ssa.Value
+		for ifi, outcome := range controllingConds(b) {
+			bo, ok := ifi.Cond.(*ssa.BinOp)
+			if !ok || bo.Op != token.EQL || !outcome {
+				continue
+			}
+			for _, pair := range [][2]ssa.Value{{bo.X, bo.Y}, {bo.Y, bo.X}} {
+				if f, _ := fieldLoad(pair[1]); f == "Error.Line" {
+					cnt = pair[0]
+				}
+			}
+		}
+		if cnt == nil {
+			return "a line is handed back on a path that is not under `<counter> == e.Line`"
+		}
+		var phi *ssa.Phi
+		d := int64(0)
+		switch x := cnt.(type) {
+		case *ssa.Phi:
+			phi = x
+		case *ssa.BinOp:
+			if k, ok := constInt(x.Y); ok && x.Op == token.ADD {
+				phi, _ = x.X.(*ssa.Phi)
+				d = k
+			}
+		}
+		if phi == nil {
+			return "what is compared with e.Line is not a counter of the lines read"
+		}
+		head := phi.Block()
+		body := naturalLoop(head)
+		if len(body) < 2 {
+			return "the line counter is not kept by a loop"
+		}
+		scansInLoop := 0
+		for blk := range body {
+			for _, in := range blk.Instrs {
+				if call, ok := in.(*ssa.Call); ok && calleeFullName(&call.Call) == "(*bufio.Scanner).Scan" {
+					scansInLoop++
+					if blk != head {
+						return "a line is read elsewhere than at the head of the counting loop"
+					}
+				}
+			}
+		}
+		if scansInLoop != 1 {
+			return fmt.Sprintf("%d calls of Scan in the counting loop", scansInLoop)
+		}
+		for i, e := range phi.Edges {
+			if body[head.Preds[i]] {
+				next, ok := e.(*ssa.BinOp)
+				if !ok || next.Op != token.ADD || next.X != ssa.Value(phi) {
+					return "the line counter does not grow by one with every line read"
+				}
+				if k, ok := constInt(next.Y); !ok || k != 1 {
+					return "the line counter does not grow by one with every line read"
+				}
+				continue
+			}
+			k, ok := constInt(e)
+			if !ok || k+d != 1 {
+				return fmt.Sprintf("the first line read is compared with e.Line as line %d, but lines are numbered from 1: the snippet shows a neighbour of the referenced line", k+d)
+			}
+		}
+		// the text is that of the current token
+		fromText := false
+		var walk func(v ssa.Value, depth int)
+		walk = func(v ssa.Value, depth int) {
+			if depth > 4 {
+				return
+			}
+			switch x := v.(type) {
+			case *ssa.Phi:
+				for _, e := range x.Edges {
+					walk(e, depth+1)
+				}
+			case *ssa.Call:
+				if calleeFullName(&x.Call) == "(*bufio.Scanner).Text" {
+					fromText = true
+					return
+				}
+				for _, a := range x.Call.Args {
+					walk(a, depth+1)
+				}
+			}
+		}
+		walk(ret.Results[0], 0)
+		if !fromText {
+			return "the line handed back is not the scanner's current token"
+		}
+	}
+	if !found {
+		return "no return hands a line back"
+	}
+	return ""
+}
